@@ -143,7 +143,9 @@ def worker(args, scratch):
             pkg = {"exe": sha(root.p(PKG + "/azure-proxy-agent")), "cfg": sha(root.p(PKG + "/proxy-agent.json")), "ebpf": sha(root.p(PKG + "/ebpf_cgroup.o")), "unit": sha(root.p(TOOL + "/azure-proxy-agent.service"))}
             init = r.choice(["nothing", "installed", "installed", "installed+backup"])
             if init != "nothing":
-                root.write(SYS["exe"], fake_exe("1.0.%d" % h, r), 0o755)
+                # every fourth installed agent reports the SAME version string as the package while its bytes differ (a re-spun build,
+                # a locally modified or damaged file): install places the packaged files all the same
+                root.write(SYS["exe"], fake_exe(("2.0.%d" if h % 4 == 2 else "1.0.%d") % h, r), 0o755)
                 root.write(SYS["cfg"], b'{"installed": "A %d"}' % r.getrandbits(32))
                 root.write(SYS["ebpf"], bytes(r.getrandbits(8) for _ in range(r.randrange(1, 2000))))
                 root.write(SYS["unit"], b"[Unit]\nDescription=A %d\n" % r.getrandbits(32))
